@@ -350,3 +350,11 @@ fn verif_native_c03_pipeline_text() {
     }
     assert!(fails.is_empty(), "C03.N.pipeline.text: FAILSET{{{}}} {} of {} evaluations disagree, first: {:?}", ids.join(","), fails.len(), n, &fails[..fails.len().min(6)]);
 }
+
+//@n {"id":"C04.N.canary","props":["C04"],"tier":"quick","kind":"canary","text":"canary: chase() claimed to return the literal `$p` instead of the caller's value must FAIL"}
+#[test]
+fn verif_native_c04_canary() {
+    let globals = map(&[("p", "22")]);
+    let locals = map(&[("_name", "foo"), ("k", "$p")]);
+    assert!(run_chase(&globals, &locals, "k") == R::Val("$p".to_string()), "canary: indirection is not resolved");
+}
